@@ -14,7 +14,7 @@ repo = os.path.join(scratch, 'repo')
 try:
     subprocess.check_call(['rsync', '-a', '--exclude', '.git', '/repo/', repo + '/'])
     def run(cmd, **kw):
-        return subprocess.run(cmd, shell=True, cwd=repo, capture_output=True, text=True, **kw)
+        return subprocess.run(cmd, shell=True, cwd=repo, capture_output=True, text=True, env=dict(os.environ, PYTHONPATH=repo), **kw)
     demo = os.path.join(src, 'demo.py')
     r0 = run('/venv/bin/python %s' % demo, timeout=900)
     ap = run('patch -p1 --dry-run < %s/patch.diff' % src)
